@@ -386,8 +386,20 @@ func (c *c18Coll) delivered(done <-chan struct{}, quiet time.Duration) bool {
 	case <-done:
 		return grace()
 	case <-time.After(quiet):
-		return c.n.Load() > 0
 	}
+	// nothing yet: keep watching for as long as the collector still holds a client (a slow
+	// machine must not turn a delivery into "not delivered"), up to the ceiling
+	deadline := time.Now().Add(c18Ceiling - quiet)
+	for c.n.Load() == 0 && c.cp.GetNumConnToCollector() > 0 && time.Now().Before(deadline) {
+		select {
+		case <-c.first:
+			return true
+		case <-c.stopped:
+			return grace()
+		case <-time.After(20 * time.Millisecond):
+		}
+	}
+	return c.n.Load() > 0
 }
 
 func (c *c18Coll) stop() {
